@@ -268,9 +268,9 @@ def stalefield(ctx):
     from .rules import stalefield as sf
     P = program()
     c = _sub()
-    n = sf.check(c, [P.fn("stale_bad"), P.fn("stale_good")])
-    ctx.control("R27.stale-member finds the control frees", n == 4, str(n))
-    _expect(ctx, "R27.stale-member", c, ["stale_bad"], ["stale_good"])
+    n = sf.check(c, [P.fn("stale_bad"), P.fn("stale_good"), P.fn("stale_alias_bad"), P.fn("stale_alias_good")])
+    ctx.control("R27.stale-member finds the control frees", n == 6, str(n))
+    _expect(ctx, "R27.stale-member", c, ["stale_bad", "stale_alias_bad"], ["stale_good", "stale_alias_good"])
 
 
 def fieldfit(ctx):
